@@ -922,7 +922,7 @@ func (h *tkHarness) pullToks(sc mv, polls, max int) ([]tkTok, string, string) {
 
 func init() {
 	register(&Rule{ID: "TOK.lossless", Floor: 4,
-		Doc: "each built-in tokenizer evaluated abstractly (TokenizeBuffer on the machine, all options off) over every string up to a bounded length over the alphabet of state-selecting character classes and a pool of longer strings: the token values concatenate to the input, only the final end-of-input token is empty, and TokenizeBufferToStrings returns exactly those values",
+		Doc: "each built-in tokenizer evaluated abstractly (TokenizeBuffer on the machine, all options off) over every string up to a bounded length over the alphabet of state-selecting character classes and a pool of longer strings: the token values concatenate to the input, only the final end-of-input token is empty, and TokenizeBufferToStrings returns exactly those values; also for instances configured through the API (further symbols of 3-5 characters with unregistered prefixes and inputs ending inside them, several CSV separators in one input, separators / quote symbols / symbols changed between inputs)",
 		Run: func(c *Ctx) []*Obligation {
 			return tkEmit(c, "TOK.lossless", "lossless", "values concatenate to the input")
 		}})
@@ -932,12 +932,12 @@ func init() {
 			return tkEmit(c, "TOK.position", "position", "positions equal the forward scan")
 		}})
 	register(&Rule{ID: "TOK.options", Floor: 4,
-		Doc: "for option combinations (quick: each option alone, all, and mixed sets; thorough: all 127) the stream equals the option-free stream with whole tokens dropped or rewritten as the statement lists, each token at the position of the token it came from; decoded values are the tokenizer's own DecodeString of the raw token",
+		Doc: "for option combinations (quick: each option alone, all, and mixed sets; thorough: all 127) the stream equals the option-free stream with whole tokens dropped or rewritten as the statement lists, each token at the position of the token it came from; decoded values come from a model of the statements (one enclosing pair removed, doubled quotes collapsed for the expression and CSV states), and the string-list entry points give the values of the same rewritten stream",
 		Run: func(c *Ctx) []*Obligation {
 			return tkEmit(c, "TOK.options", "options", "optioned streams equal the rewritten option-free stream")
 		}})
 	register(&Rule{ID: "TOK.reuse", Floor: 4,
-		Doc: "every ordered pair of a pool (every multi-character symbol, every token class, unterminated literals) on one instance against a fresh instance; pull iteration with 0, 1 and 3 HasNextToken queries per token against TokenizeBuffer; a new input after an iteration abandoned after 0..8 tokens; the same scanner object rewound and assigned again",
+		Doc: "every ordered pair of a pool (every multi-character symbol, every token class, unterminated literals) on one instance against a fresh instance; pull iteration with 0, 1 and 3 HasNextToken queries per token against TokenizeBuffer; a new input after an iteration abandoned after 0..8 tokens; the same scanner object rewound and assigned again; a token list handed out earlier reads the same after two later inputs",
 		Run: func(c *Ctx) []*Obligation {
 			return tkEmit(c, "TOK.reuse", "reuse", "results do not depend on history or on has-next queries")
 		}})
